@@ -768,6 +768,16 @@ PLANS["C12"] = dict(
              gen=dict(module="MC_SigningKeys", cfg=lambda tier, seed: mc_cfg(["Inv_Valid", "Inv_NoEffect", "Inv_Emit"], consts=["Depth = 3"]), select=slicer(20000)),
              drive=dict(driver="signingkeys"),
              validate=dict(module="Trace_SigningKeys", cfg=trace_cfg(), only_rules=["no-panic"])),
+        dict(name="configfile",
+             gen=dict(module="MC_ConfigFile", cfg=lambda tier, seed: mc_cfg(["Inv_Type", "Inv_Laws", "Inv_Emit"], consts=["Depth = 4"]), select=slicer(4000)),
+             drive=dict(driver="configfile"),
+             validate=dict(module="Trace_ConfigFile", cfg=trace_cfg(), only_rules=["no-panic"])),
+        # errors are reported consistently by the convenience entry point too: what notation.Verify hands back with a nil error is the
+        # accepted signature's outcome and nothing else (no outcome of a signature it rejected on the way)
+        dict(name="registry-loop",
+             gen=dict(module="MC_Notation_C10", cfg=lambda tier, seed: mc_cfg(["Inv_C10", "Inv_Emit"], consts=["MaxLen = 3", "MaxN = 4"]), select=take_all),
+             drive=dict(driver="notation-verify"),
+             validate=dict(module="Trace_Notation", cfg=trace_cfg(), only_rules=["returned", "no-panic"])),
     ],
 )
 
